@@ -180,7 +180,7 @@ pub fn gen(prop: &str, seed: u64, thorough: bool, out: &mut impl Write) {
                 let isva = rng.chance(1, 2);
                 let mut c = vec![if isva { 52 } else { 53 }, if isva { canon(rng) } else { phys(rng) }];
                 for _ in 0..len {
-                    let op = if isva { rng.below(16) } else { rng.below(11) };
+                    let op = if isva { rng.below(21) } else { rng.below(13) };
                     let arg = match (isva, op) {
                         (_, 4) | (_, 5) => {
                             if rng.chance(9, 10) { 1u64 << rng.below(if isva { 48 } else { 53 }) } else { align(rng) }
